@@ -18,12 +18,17 @@ from . import fib, C01
 ORDERED = ("ult", "ule", "ugt", "uge", "slt", "sle", "sgt", "sge")
 
 
+HEAD_CACHE = set()      # kernel members validated (T3.head-cache) as a cache of the timer queue head's due time
+
+
 def time_kind(e, K, fn):
     """'time' | 'diff' | None for an expression (looks through casts)."""
     e = strip_casts(e)
     if e[0] == "ld":
         root, off, var = ptr_parts(e[1])
         if e[1] == K.kptr("now"):
+            return "time"
+        if K.member_of(e[1]) and K.member_of(e[1])[0] in HEAD_CACHE and K.member_of(e[1])[1] == 0:
             return "time"
         if off in (K.fibre["duetime"][0], K.fibre["duetime"][0] - K.link_off) and not var and e[2] == 4 \
                 and root[0] in ("ld", "sym", "arg", "call", "p"):
@@ -343,6 +348,15 @@ def check_t3(chk, m, K):
     for s, p in segs:
         opaque = [x for c, t, i in p.conds for x in paths.subexprs(c)
                   if x[0] == "ld" and x[1] is not None and K.member_of(x[1]) and K.member_of(x[1])[0] not in known]
+        if opaque and len(set(K.member_of(x[1])[0] for x in opaque)) == 1:
+            mem = K.member_of(opaque[0][1])[0]
+            v = fib.check_head_cache(chk, m, K, mem)
+            if v is True:
+                HEAD_CACHE.add(mem)         # validated: reads of it stand for the head's due time
+                opaque = []
+            elif v is False:
+                fib.check_iterator_validity(chk, m, K)
+                return
         if opaque:
             chk.unknown("T3.expiry-predicate", "handle_timerq", "the expiry decision reads kernel.%s, state this rule does not interpret "
                         "(a cache of the head's due time?): whether it is kept up to date is not decided" % K.member_of(opaque[0][1])[0],
